@@ -12,7 +12,24 @@ import (
 	corelisters "k8s.io/client-go/listers/core/v1"
 )
 
-func (g *gatedPodLister) List(sel labels.Selector) ([]*corev1.Pod, error) { return g.l.List(sel) }
+// List is an interposable point of the periodic pod-ip sync only (syncPodIPsIntoDB lists once, without a lock, and then works
+// through the snapshot); the other callers use it inside one segment.
+func (g *gatedPodLister) List(sel labels.Selector) ([]*corev1.Pod, error) {
+	cur := g.w.S.Current()
+	if cur == nil || cur.Type != "syncall" {
+		return g.l.List(sel)
+	}
+	op := g.w.S.Gate(&Call{Name: "podlistall", Args: map[string]interface{}{}})
+	pods, err := g.l.List(sel)
+	if op != nil {
+		names := []string{}
+		for _, p := range pods {
+			names = append(names, p.Name)
+		}
+		op.Last.Ret = map[string]interface{}{"names": names}
+	}
+	return pods, err
+}
 func (g *gatedPodLister) Pods(ns string) corelisters.PodNamespaceLister {
 	return &gatedPodNsLister{w: g.w, l: g.l.Pods(ns)}
 }
